@@ -8,6 +8,7 @@ import re
 import time
 
 ROOT = os.path.dirname(os.path.dirname(os.path.abspath(__file__)))
+EVID = os.environ.get("VERIF_EVIDENCE_DIR", os.path.join(ROOT, "evidence"))
 
 
 def stable_id(name, note):
@@ -36,7 +37,7 @@ def matches_known(k, text):
 
 def finish(prop, tier, seed, prover, native, t0, level_note="", extra_assumptions=(), checker_cmd=""):
     """prover: dict from main.run_json; native: dict from native harness (or None).  Returns exit code."""
-    os.makedirs(os.path.join(ROOT, "evidence", "replays"), exist_ok=True)
+    os.makedirs(os.path.join(EVID, "replays"), exist_ok=True)
     known = load_known(prop)
     baseline = load_baseline(prop)
     lines = []
@@ -61,8 +62,9 @@ def finish(prop, tier, seed, prover, native, t0, level_note="", extra_assumption
 
     def write_replay(rec):
         n_replay[0] += 1
-        path = os.path.join("evidence", "replays", "%s-%d.json" % (prop, n_replay[0]))
-        with open(os.path.join(ROOT, path), "w") as f:
+        full = os.path.join(EVID, "replays", "%s-%d.json" % (prop, n_replay[0]))
+        path = os.path.relpath(full, ROOT)
+        with open(full, "w") as f:
             json.dump(rec, f, indent=1, default=str)
         return path
 
@@ -172,6 +174,6 @@ def finish(prop, tier, seed, prover, native, t0, level_note="", extra_assumption
     ev = dict(property_id=prop, tier=tier, seed=seed, level="proof", coverage=cov,
               assumptions=sorted(set(prover.get("assumptions", [])) | set(extra_assumptions)),
               wall_s=round(time.time() - t0, 2), violations=len(violations))
-    with open(os.path.join(ROOT, "evidence", prop + ".json"), "w") as f:
+    with open(os.path.join(EVID, prop + ".json"), "w") as f:
         json.dump(ev, f, indent=1, default=str)
     return code, lines
